@@ -18,6 +18,36 @@ CHECKS = {
             "Trusted: mc.model reference semantics (hand-computed self-test; bound to Polar's interpreter by C12 path replay), "
             "Fraction arithmetic, sympy subs/expand to evaluate Polar's formula at an integer n. Refusals are allowed.",
             "explicit-state exploration of the program's Markov chain vs closed form, exhaustive over a program grammar"),
+    "C02": ("model_checking",
+            "Translation validation by bounded exhaustive bisimulation: the real normalize_program runs with every pass's "
+            "execute wrapped; after each pass the program is read into the model and explored; the exact joint distribution of "
+            "the source variables at every boundary n <= N must equal that of the source model, for every program of the "
+            "grammar, every pass boundary and the settings default / transform_categoricals / cond2arithm.",
+            "DESIGN.md §3 C02, §2.2",
+            "Trusted: mc.irmodel's reading of Polar's object fields and the stated meaning of `v = rhs | cond : default`; "
+            "continuous programs compared through mixed moments up to degree 3 only.",
+            "explicit-state exploration of source vs. every intermediate program (bounded bisimulation on distributions)"),
+    "C03": ("model_checking",
+            "Every equation of every recurrence system Polar builds is checked as a pointwise one-step identity in every "
+            "reachable state (depth <= N) of the normalised program's state graph, plus initial values, closure and the matrix form.",
+            "DESIGN.md §3 C03",
+            "Trusted: IR model (bound to the source by C02), exact conversion sympy -> mc.poly.",
+            "invariant (one-step expectation identity) evaluated on every state of the explored state graph"),
+    "C05": ("model_checking",
+            "Polar's normalised program is explored on all paths to depth N and, when finite-state, to the reachability fixed "
+            "point; every value any variable with an inferred finite type holds after any statement must be in the type.",
+            "DESIGN.md §3 C05",
+            "Trusted: IR model; user-declared types are taken as given; fixed point only when the support graph closes below the cap.",
+            "reachability analysis of the normalised program (bounded depth + fixed point) against inferred types"),
+    "C12": ("model_checking",
+            "Stateless prefix-replay exploration of Polar's real Simulator: every resolution of every random choice to depth d "
+            "is executed (each schedule twice) and compared path by path with the model (choice weights, path probability, "
+            "state after every iteration, stutter). Samplers: rvs replaced by the frozen scipy quantile function built from "
+            "the arguments Polar passes; the oracle CDF at the sample must equal the quantile, sample inside declared support.",
+            "DESIGN.md §3 C12, §2.3",
+            "Integer/dyadic values only (float equality = exact equality); scipy ppf and mpmath CDFs trusted; "
+            "random sources intercepted by attribute replacement.",
+            "stateless exhaustive path enumeration on the implementation under scripted random sources"),
 }
 
 NOT_YET = {}
